@@ -306,10 +306,15 @@ Proof.
   assert (forall a d', b2 a d' = if d' =? 1 then (if addr_eqb a from then 0 else if addr_eqb a to then b1 a d' + b1 from 1 else b1 a d') else b1 a d') as H2
     by (intros; apply move_all_spec; auto).
   assert (0 <= b2 from 2) as N2 by (rewrite H2; simpl; rewrite H1; simpl; auto).
-  rewrite move_all_spec by auto. rewrite !H2, !H1. unfold known_denom.
+  set (b3 := move_all b2 from to 2).
+  assert (forall a d', b3 a d' = if d' =? 2 then (if addr_eqb a from then 0 else if addr_eqb a to then b2 a d' + b2 from 2 else b2 a d') else b2 a d') as H3
+    by (intros; apply move_all_spec; auto).
+  assert (0 <= b3 from 3) as N3 by (rewrite H3; simpl; rewrite H2; simpl; rewrite H1; simpl; auto).
+  rewrite move_all_spec by auto. rewrite !H3, !H2, !H1. unfold known_denom.
   destruct (Z.eqb_spec d' 0); [subst; simpl; reflexivity|].
   destruct (Z.eqb_spec d' 1); [subst; simpl; reflexivity|].
-  destruct (Z.eqb_spec d' 2); [subst; simpl; reflexivity|]. reflexivity.
+  destruct (Z.eqb_spec d' 2); [subst; simpl; reflexivity|].
+  destruct (Z.eqb_spec d' 3); [subst; simpl; reflexivity|]. reflexivity.
 Qed.
 
 (* C20_cancel_full: the owner's cancel of a pending order whose escrow account holds the escrowed amount
